@@ -149,6 +149,8 @@ func (d vDef) query() string {
 		return fmt.Sprintf(`cdata:"MARK%d;"`, d.N)
 	case "C":
 		return `cdata:"CONV:"`
+	case "Q": // a payload filter inside a sub-query: streams on the server port of a stream that has converter output
+		return `@sub:cdata:"CONV:" sport:@sub:sport@`
 	case "E": // parses, but no such converter exists: every search with it fails
 		return `cdata.nope:"x"`
 	case "B": // every capture adds a marker of 6 bytes ("MARKk;") to the client side of a conversation
